@@ -155,8 +155,12 @@ func aggregateE1(rep *Reporter, prop string, cases []*e1Case, res *e1Result, bou
 			if fk := failKey[prop]; fk != nil {
 				norm = fk(f)
 			}
-			rep.Violation("does-not-"+f.Phase+"|"+norm, fmt.Sprintf("%s: goderive output for this case does not %s: %s", caseLabel(f.Case), f.Phase, head(firstErrorLine(f.Output), 300)),
-				map[string]interface{}{"engine": "e1", "phase": f.Phase, "output": tail(f.Output, 3000), "files": f.Files})
+			label := caseLabel(f.Case)
+			if len(f.Together) > 0 {
+				label = fmt.Sprintf("only when these %d programs share a package (each half of the batch is fine alone): %s", len(f.Together), head(strings.Join(f.Together, " + "), 600))
+			}
+			rep.Violation("does-not-"+f.Phase+"|"+norm, fmt.Sprintf("%s: goderive output for this case does not %s: %s", label, f.Phase, head(firstErrorLine(f.Output), 300)),
+				map[string]interface{}{"engine": "e1", "phase": f.Phase, "output": tail(f.Output, 3000), "files": f.Files, "together": f.Together})
 		}
 	}
 	sort.Strings(excl)
